@@ -152,7 +152,7 @@ def directed(ctx, lw, rng):
 
 
 def run(ctx):
-    lw = setup(ctx)
+    lw = setup(ctx, warm=False)
     rng = ctx.rng
     directed(ctx, lw, rng)
     max_steps = 40 if ctx.tier == "thorough" else 25
